@@ -279,7 +279,7 @@ func mutateStep(c *Ctx, bm *BM, o MutOpts) string {
 		// which keeps hitting the last (first) run / the tail of one container without any other operation in between
 		n := 2 + r.Intn(9)
 		if r.Chance(0.25) {
-			n = 10 + r.Intn(40) // long enough to eat most of a long last run
+			n = 10 + r.Intn(70) // long enough to eat most of a long last run
 		}
 		fromTop := r.Chance(0.6)
 		var lo, hi uint64 = 0, max32
